@@ -720,3 +720,18 @@ def filter_facts(f, atoms):
                 if b2 is not None:
                     out.append(b2)
     return out
+
+
+def subst_captures(tree, caps):
+    """replace the capture projections `(*env).N` of a closure-body tree by the captured values `caps` (trees of the creating frame)"""
+    def rec(t):
+        if not isinstance(t, tuple) or not t:
+            return t
+        if t[0] == 'field' and str(t[2]).isdigit() and len(t) > 3 and '{closure' in str(t[3]) and int(t[2]) < len(caps):
+            base = t[1]
+            while isinstance(base, tuple) and base and base[0] in ('deref', 'ref'):
+                base = base[1]
+            if base[0] == 'arg' and base[1] == 1:
+                return caps[int(t[2])]
+        return tuple(rec(x) if isinstance(x, tuple) else x for x in t)
+    return rec(tree)
